@@ -47,7 +47,7 @@ common.install(
     corpus_sel=lambda: common.corpus_entries(),
     template=add_only_template,
     mix=(3, 11, 6),
-    budgets=(1800, 48000),
+    budgets=(1800, 24000),
     decl="free",
     level_text="Exploration: differential testing with model counting: restricted to the source vocabulary the result must have exactly the source's answer sets, with equal counts (auxiliary atoms determined by source atoms).",
 )
